@@ -87,9 +87,10 @@ CLAIMED = {
               "law is sampled on the implementation with an independent winding-number evaluator. Partial by construction: Skia's "
               "own correctness is a hypothesis."),
         note=("Trusted: Lean kernel; no axioms beyond propext (core only); Spec/Region.lean; the EngineSpec hypotheses (validated by "
-              "sampling, epsilon band 2% of extent); harness/geom.py; harness/skia_trace.py. One recorded finding: on a witness pair "
+              "sampling, epsilon band 2% of extent); harness/geom.py; harness/skia_trace.py. Two recorded findings: on a witness pair "
               "of evenodd operands with cubics skia-pathops returns a wrong union without raising (known_findings.json, "
-              "C13-skia-union-cubics-wrong-region) — the engine hypothesis fails there, nothing to repair in picosvg."),
+              "C13-skia-union-cubics-wrong-region), and on two witness evenodd polygons its winding repair returns contours that are "
+              "wrong under nonzero (C13-skia-fix-winding-evenodd-polygons) — the engine hypothesis fails there, nothing to repair in picosvg."),
         technique="Lean 4 proof relative to an engine specification (induction on the operand list) + recorded-call expression correspondence + sampled set law",
         ref="DESIGN.md §4 C13"),
     "C19": dict(
